@@ -2,6 +2,11 @@
 
 Correspondence streams (REAL CLI entry points in temp dirs vs native Lean driver):
   gt         VariantSourceSet.__gt__ on random source sets / orders          (internal)
+  gtl        __gt__ under explicit level maps (also NON-injective ones), the two sets given
+             as lists with repeated / shuffled elements vs `srcGt`              (internal)
+  toint      VariantSourceSet.to_int() under the same level maps vs `toInt`    (internal)
+  decode     the Lean `decode` applied to the real encoded FASTA + real .dict (uuids renamed
+             by first use) must give back the input titles                    (observable)
   split      cli.split_fasta: {database key: records} vs `split`             (observable)
   summarize  cli.summarize_fasta: written table vs `summarize` + row writer  (observable)
   merge      cli.merge_fasta (with / without --dedup-header) vs `mergePools` (observable)
@@ -13,6 +18,11 @@ Property predicates evaluated directly on the real outputs:
   decode         decode(.dict, encoded header) == original header, decoy marks preserved
   total          summarizeFasta rows add up to the number of peptides
   eq_split       summarizeFasta row totals == splitFasta database sizes (same options)
+  perm           splitFasta on the same input with the entries of every header permuted files
+                 every peptide under the same database with the same entries
+                 (split_key_order_independent)
+  order_props    on the real objects: a > b / b > a / a == b exactly one (levels injective),
+                 to_int equal iff sets equal
 """
 from __future__ import annotations
 import argparse
@@ -493,18 +503,24 @@ def check_summary(ctx, c, rows, dbs, stats):
                               rp({'predicate': 'misc-total', 'row': n}))
     if dbs is None:
         return
-    # agreement with splitFasta under the same options, when every peptide is split by its
-    # own source set (max_groups large enough)
+    # agreement with splitFasta under the same options (summary_eq_split): per key, the row of
+    # a source combination with at most --max-source-groups members equals the size of the
+    # database of that name; the -additional / Remaining databases together hold the peptides
+    # of the rows with more members
     sizes = {k: len(v) for k, v in dbs.items()}
-    if any(k == 'Remaining' or k.endswith('-additional') for k in sizes):
-        return
     stats['eq_split'] += 1
     rowmap = {n: t for n, t, _ in rows}
-    bad = [(k, sizes.get(k, 0), rowmap.get(k)) for k in set(sizes) | {n for n, t in rowmap.items() if t}
+    overflow = lambda k: k == 'Remaining' or k.endswith('-additional')
+    fits = lambda n: len(n.split('-')) <= c.max_groups
+    keys = {k for k in sizes if not overflow(k)} | {n for n, t in rowmap.items() if t and fits(n)}
+    bad = [(k, sizes.get(k, 0), rowmap.get(k)) for k in sorted(keys)
            if sizes.get(k, 0) != (rowmap.get(k) or 0)]
+    over_db = sum(v for k, v in sizes.items() if overflow(k))
+    over_rows = sum(t for n, t in rowmap.items() if not fits(n))
+    if over_db != over_rows:
+        bad.append(('Remaining + *-additional', over_db, over_rows))
     if bad:
         wild = c.order is not None and any(x in c.order for x in '*+')
-        combo_key = c.order is not None and '-' in c.order
         key = None
         if wild:
             key = 'summary-vs-split-wildcard'
@@ -530,7 +546,13 @@ def run(ctx: common.Ctx):
         'A-+) x --group-source x --max-source-groups 1-4 x --additional-split, through the real '
         'split/summarize/merge/encode CLIs; a "clean" half satisfies the hypotheses of '
         'summary_eq_split; malformed stream: bad entries, missing labels, duplicate order keys; '
-        'non-trivial = at least two databases / rows with a count, or an error class')
+        'non-trivial = at least two databases / rows with a count, or an error class; '
+        'source-set order: explicit level maps over 2-5 plain keys + 0-2 frozenset keys, 70 % '
+        'injective / 30 % with repeated levels, both sets as lists with repetitions in random '
+        'order (25 % the same set re-ordered), real __gt__ / to_int vs srcGt / toInt and the '
+        'trichotomy + injectivity predicate on the real objects; every second splitFasta case is '
+        're-run with the entries of each header permuted; every encodeFasta output is decoded by '
+        'the Lean decode; the empty decoy string as prefix and as suffix')
 
     # ---- gt
     rng = ctx.rng('gt')
@@ -556,8 +578,10 @@ def run(ctx: common.Ctx):
     ctx.diff_stream('gt', cases, False, lambda o: {'order': o[0], 'a': o[1], 'b': o[2]},
                     lambda o: o == '1')
 
+    run_order(ctx)
+
     work = tempfile.mkdtemp(prefix='c18_')
-    stats = {'partition': 0, 'total': 0, 'eq_split': 0, 'union': 0, 'decode': 0}
+    stats = {'partition': 0, 'total': 0, 'eq_split': 0, 'union': 0, 'decode': 0, 'perm': 0}
     try:
         # ---- split + summarize
         rng = ctx.rng('split')
@@ -575,6 +599,20 @@ def run(ctx: common.Ctx):
             mcases.append((line_summarize(c), rm, c))
             if dbs is not None:
                 check_split(ctx, c, dbs, stats)
+                c2 = permuted(c, rng) if i % 2 == 0 else None
+                if c2 is not None:
+                    d2 = os.path.join(work, f'p{i}')
+                    os.mkdir(d2)
+                    paths2, gvfs2 = write_inputs(c2, d2)
+                    rs2, _ = real_split(c2, d2, paths2, gvfs2)
+                    shutil.rmtree(d2, ignore_errors=True)
+                    stats['perm'] += 1
+                    if rs2 != rs:
+                        ctx.add_violation(
+                            'splitFasta: permuting the entries of the input headers changes the '
+                            'database a peptide is filed under (or its entries)',
+                            dict(describe(c), predicate='perm',
+                                 permuted_fastas=describe(c2)['fastas'], split=rs, split_permuted=rs2))
             if rows is not None:
                 check_summary(ctx, c, rows, dbs, stats)
             shutil.rmtree(d, ignore_errors=True)
@@ -592,12 +630,99 @@ def run(ctx: common.Ctx):
         ctx.count('predicates', k, v)
     ctx.assumptions += [
         'uuid.uuid4() returns pairwise distinct identifiers that neither start nor end with the '
-        'decoy string (hypothesis of encode_decode)',
+        'decoy string (hypothesis UuidOk of encode_decode; checked on the identifiers of every run '
+        'by the decode predicate)',
         'str.split / str.join on " ", "|", "-", "," and ":" (driver side)',
         'Python list.sort() with the partial VariantPeptideInfo.__lt__ puts an entry with a minimal '
         'source set first (validated by the split/summarize streams; the order of the remaining '
         'entries is compared as a multiset)',
     ]
+
+
+def run_order(ctx):
+    """to_int / __gt__ under explicit level maps: plain and frozenset keys, injective and
+    non-injective levels, sets given as lists with repetitions in random order."""
+    from moPepGen.aa.VariantPeptideLabel import VariantSourceSet
+    rng = ctx.rng('gtl')
+    names = ['A', 'B', 'C', 'D', 'E']
+    gcases, tcases = [], []
+    n_props = 0
+    for i in range(ctx.n(2500, 30000)):
+        k = rng.randint(2, 5)
+        plain = rng.sample(names, k)
+        keys = list(plain)
+        for _ in range(rng.choice([0, 0, 1, 1, 2])):
+            m = rng.sample(plain, rng.randint(1, min(3, k)))
+            keys.insert(rng.randint(0, len(keys)), '-'.join(m))
+        injective = rng.random() < 0.7
+        if injective:
+            lv = list(range(len(keys)))
+            rng.shuffle(lv)
+        else:
+            lv = [rng.randint(0, max(1, len(keys) - 2)) for _ in keys]
+        order = {}
+        for kname, v in zip(keys, lv):
+            order[frozenset(kname.split('-')) if '-' in kname else kname] = v
+        # what the dict holds after the assignments (a repeated frozenset key overwrites)
+        spec = ','.join(f'{kname}={v}' for kname, v in zip(keys, lv))
+        VariantSourceSet.set_levels(order)
+
+        def some_set():
+            base = rng.sample(plain, rng.randint(1, len(plain)))
+            lst = base + [rng.choice(base) for _ in range(rng.choice([0, 0, 1, 2]))]
+            rng.shuffle(lst)
+            return lst
+        la, lb = some_set(), some_set()
+        if rng.random() < 0.25:
+            lb = list(la)
+            rng.shuffle(lb)
+        a, b = VariantSourceSet(la), VariantSourceSet(lb)
+        try:
+            real = '1' if a > b else '0'
+        except KeyError:
+            real = 'crash:KeyError'
+        gcases.append((f'C18\tgtl\t{spec}\t{"-".join(la)}\t{"-".join(lb)}', real, (spec, la, lb)))
+        try:
+            ti = a.to_int()
+            real_t = ','.join(str(x) for x in ti)
+        except KeyError:
+            ti, real_t = None, 'crash:KeyError'
+        tcases.append((f'C18\ttointl\t{spec}\t{"-".join(la)}', real_t, (spec, la, None)))
+        # source_order_total evaluated on the real objects
+        distinct_levels = len(set(order.values())) == len(order)
+        if distinct_levels:
+            n_props += 1
+            gt, lt, eq = a > b, b > a, set(a) == set(b)
+            tb = b.to_int()
+            if (gt + lt + eq) != 1 or ((ti == tb) != eq):
+                ctx.add_violation('VariantSourceSet order is not a strict total order on sets / '
+                                  'to_int is not injective although the levels are distinct',
+                                  {'predicate': 'order_props', 'levels': spec, 'a': la, 'b': lb,
+                                   'a>b': gt, 'b>a': lt, 'a==b': eq, 'to_int': [ti, tb]})
+    VariantSourceSet.reset_levels()
+    d = lambda o: {'levels': o[0], 'a': o[1], 'b': o[2]}
+    ctx.diff_stream('gtl', gcases, False, d, lambda o: o == '1')
+    ctx.diff_stream('toint', tcases, False, d, lambda o: ',' in o or o.startswith('crash'))
+    ctx.count('predicates', 'order_props', n_props)
+
+
+def permuted(c, rng):
+    """the case with the entries of every multi-entry header permuted (None: nothing to permute)"""
+    import copy
+    c2 = copy.copy(c)
+    changed = False
+    files = []
+    for f in c.files:
+        g = []
+        for s, ents in f:
+            e2 = list(ents)
+            if len(e2) >= 2 and all(etext(x) for x in e2):   # '' = trailing blank of the title
+                e2.reverse() if rng.random() < 0.5 else rng.shuffle(e2)
+                changed = changed or [etext(x) for x in e2] != [etext(x) for x in ents]
+            g.append((s, e2))
+        files.append(g)
+    c2.files = files
+    return c2 if changed else None
 
 
 def run_merge(ctx, work, stats):
@@ -696,19 +821,9 @@ def run_merge(ctx, work, stats):
 def run_encode(ctx, work, stats):
     from moPepGen import cli
     rng = ctx.rng('encode')
-    cases = []
-    for i in range(ctx.n(600, 6000)):
-        uni = Universe(rng, ntx=3)
-        decoy = rng.choice(['DECOY_', 'DECOY_', 'rev_', '_REV', 'XXX'])
-        pos = rng.choice(['prefix', 'suffix'])
-        recs = []
-        hdrs = [' '.join(gen_entry(rng, uni, 0.1).text for _ in range(rng.choice([1, 1, 2])))
-                for _ in range(rng.randint(1, 5))]
-        for _ in range(rng.randint(1, 8)):
-            h = rng.choice(hdrs)
-            if rng.random() < 0.4:
-                h = decoy + h if pos == 'prefix' else h + decoy
-            recs.append((h, gen_seq(rng)))
+    cases, dcases = [], []
+
+    def one(i, decoy, pos, recs, finding=None):
         d = os.path.join(work, f'e{i}')
         os.mkdir(d)
         a = argparse.Namespace()
@@ -721,13 +836,13 @@ def run_encode(ctx, work, stats):
         with open(a.input_path, 'w') as fh:
             for h, s in recs:
                 fh.write(f'>{h}\n{s}\n')
+        line = '\t'.join(['C18', 'encode', decoy, pos] + [x for r in recs for x in r])
         try:
             with quiet():
                 cli.encode_fasta(a)
         except CRASHES as e:
-            cases.append(('\t'.join(['C18', 'encode', decoy, pos] + [x for r in recs for x in r]),
-                          crash_name(e), (decoy, pos, recs)))
-            continue
+            cases.append((line, crash_name(e), (decoy, pos, recs)))
+            return
         out = read_fasta(a.output_path)
         dict_lines = [l.rstrip('\n').split('\t', 1) for l in open(str(a.output_path) + '.dict')]
         ren = {u: f'U{k}' for k, (u, _) in enumerate(dict_lines)}
@@ -739,9 +854,13 @@ def run_encode(ctx, work, stats):
             return h
         real = ';'.join(f'{rename(t)}:{s}' for t, s in out) + '##' + \
             ';'.join(f'{ren[u]}={h}' for u, h in dict_lines)
-        cases.append(('\t'.join(['C18', 'encode', decoy, pos] + [x for r in recs for x in r]),
-                      real, (decoy, pos, recs)))
-        # decode ∘ encode = id on the real files
+        cases.append((line, real, (decoy, pos, recs)))
+        # the Lean `decode` on the real files (identifiers renamed): must give the input titles
+        if finding is None:
+            dline = '\t'.join(['C18', 'decode', decoy, pos] + [x for u, h in dict_lines for x in (ren[u], h)]
+                              + ['//'] + [rename(t) for t, _ in out])
+            dcases.append((dline, ';'.join(h for h, _ in recs), (decoy, pos, recs)))
+        # decode ∘ encode = id on the real files, with the real identifiers
         stats['decode'] += 1
         dd = dict(dict_lines)
         ok = len(out) == len(recs) and len(dd) == len(dict_lines)
@@ -749,19 +868,54 @@ def run_encode(ctx, work, stats):
             if pos == 'prefix' and t.startswith(decoy):
                 back = decoy + dd.get(t[len(decoy):], '?')
             elif pos == 'suffix' and t.endswith(decoy):
-                back = dd.get(t[:-len(decoy)], '?') + decoy
+                back = dd.get(t[:len(t) - len(decoy)], '?') + decoy
             else:
                 back = dd.get(t, '?')
             if back != h0 or s != s0:
                 ok = False
+        # equal (stripped) headers share an identifier, different ones do not
+        strip = lambda h: (h[len(decoy):] if pos == 'prefix' and h.startswith(decoy)
+                           else h[:len(h) - len(decoy)] if pos == 'suffix' and h.endswith(decoy) else h)
+        ids = {}
+        for (t, _), (h0, _) in zip(out, recs):
+            ids.setdefault(strip(h0), set()).add(strip(t))
+        if finding is None and (any(len(v) != 1 for v in ids.values())
+                                or len({next(iter(v)) for v in ids.values()}) != len(ids)):
+            ok = False
         if not ok:
             ctx.add_violation('encodeFasta: the dictionary does not restore the headers',
                               {'predicate': 'decode', 'decoy_string': decoy, 'position': pos,
-                               'records': recs, 'output': out, 'dict': dict_lines})
+                               'records': recs, 'output': out, 'dict': dict_lines},
+                              finding_key=finding)
         shutil.rmtree(d, ignore_errors=True)
+
+    n = ctx.n(600, 6000)
+    for i in range(n):
+        uni = Universe(rng, ntx=3)
+        decoy = rng.choice(['DECOY_', 'DECOY_', 'rev_', '_REV', 'XXX'])
+        pos = rng.choice(['prefix', 'suffix'])
+        recs = []
+        hdrs = [' '.join(gen_entry(rng, uni, 0.1).text for _ in range(rng.choice([1, 1, 2])))
+                for _ in range(rng.randint(1, 5))]
+        for _ in range(rng.randint(1, 8)):
+            h = rng.choice(hdrs)
+            if rng.random() < 0.4:
+                h = decoy + h if pos == 'prefix' else h + decoy
+            recs.append((h, gen_seq(rng)))
+        one(i, decoy, pos, recs)
+    # the empty decoy string: as a prefix it round-trips (encode_decode_empty_prefix); as a
+    # suffix `header[:-0]` is '' for every record (known finding encode-empty-decoy-suffix)
+    two = [('T1|SNV-1-A-T|1', 'AAK'), ('T2|SNV-9-C-G|1', 'CCK')]
+    one(n, '', 'prefix', two)
+    one(n + 1, '', 'suffix', two, finding='encode-empty-decoy-suffix')
     ctx.diff_stream('encode', cases, True,
                     lambda o: {'decoy_string': o[0], 'position': o[1], 'records': o[2]},
                     lambda o: True, 'encodeFasta output differs from the proved model')
+    ctx.diff_stream('decode', dcases, True,
+                    lambda o: {'decoy_string': o[0], 'position': o[1], 'records': o[2]},
+                    lambda o: True,
+                    'the dictionary written by encodeFasta does not restore the titles (Lean decode '
+                    'on the real files)')
 
 
 def replay(ctx, data):
